@@ -72,3 +72,35 @@ Example C07_nonvacuous :
     [RUnit; RVal 5; RErr (EExpired 5 (100 + 5 * minute)); RUnit; RErr ENotFound; RUnit; RUnit;
      RErr (EExpired 7 400); RLen 1].
 Proof. vm_compute. reflexivity. Qed.
+
+(* ---- tie to the source: the function bodies below are re-translated from /repo on every run
+   (harness/cmd/gofunc -> theories/Generated/Funcs.v, interpreted by theories/GoIR.v); the statements say that
+   the translated source computes what the model assumes, for ALL inputs. A change of the source that alters
+   the computed function breaks the proof. ---- *)
+From Cache Require Import GoIR TieRead.
+From Cache.Generated Require Import Funcs.
+
+(* Trait.PrepareRead and TraitOf[V].PrepareRead on a found entry: value while now <= E (or E = 0), ErrExpired
+   carrying the value and the stored instant after; the usage counter and the metric event as the model has them *)
+Theorem C07_source_read_found : forall c now has_log has_stat e,
+  run_prepare_read fn_Trait_PrepareRead false c now has_log has_stat true e = Some (model_found c now e has_stat) /\
+  run_prepare_read fn_TraitOf_PrepareRead true c now has_log has_stat true e = Some (model_found c now e has_stat).
+Proof. intros; split; [exact (tie_prepare_read_found _ _ _ _ _) | exact (tie_prepare_read_of_found _ _ _ _ _)]. Qed.
+Print Assumptions C07_source_read_found.
+
+Theorem C07_source_read_missing : forall c now has_log has_stat e,
+  run_prepare_read fn_Trait_PrepareRead false c now has_log has_stat false e = Some (model_missing has_stat e) /\
+  run_prepare_read fn_TraitOf_PrepareRead true c now has_log has_stat false e = Some (model_missing has_stat e).
+Proof. intros; split; [exact (tie_prepare_read_missing _ _ _ _ _) | exact (tie_prepare_read_of_missing _ _ _ _ _)]. Qed.
+Print Assumptions C07_source_read_missing.
+
+(* and the model's Read is exactly the lookup followed by that function *)
+Theorem C07_model_read_is_prepare_read : forall hash c s k now,
+  b_read hash c s k false now =
+  match find hash (data s) k with
+  | None => (s, RErr ENotFound, [(MMiss, 1)])
+  | Some e => let '(r, cnt, ev) := model_found c now e true in
+              (mkB (<[hash k := mkEntry (eK e) (eV e) (eE e) cnt]> (data s)) (expset s), r, ev)
+  end.
+Proof. exact b_read_is_prepare_read. Qed.
+Print Assumptions C07_model_read_is_prepare_read.
